@@ -1069,6 +1069,8 @@ func (t *State) updateLatestBlockid(newBlockid []byte, batch kvdb.Batch, reason 
 	}
 	t.latestBlockid = newBlockid
 	t.heightNotifier.UpdateHeight(blk.GetHeight())
+	// batch已经落盘, xmodel里记录的本batch内未提交版本已失效, 否则后续未确认交易校验读集合时会读到旧版本
+	t.xmodel.CleanCache()
 	return nil
 }
 
